@@ -194,6 +194,31 @@ fn c08_q_owned_unit_is_one_entry_and_locks_in_declared_order() {
 }}
 
 vharness! {
+#[kani::unwind(5)]
+fn c08_q_owned_unit_same_declared_order_in_both_modes() {
+	// an owned unit whose listing order differs from its address order: read and write must take its
+	// members in the SAME (declared) order, else a reader and a writer of the unit invert
+	let mut u = <[RW; 2] as Make<2>>::make([0; 2]);
+	let (a, b) = u.split_at_mut(1);
+	let o = OwnedLockCollection::new((&mut b[0], &mut a[0]));
+	let od = cp::owned_data(&o);
+	rraw(&*od.0).other.set(any_other_rw());
+	rraw(&*od.1).other.set(any_other_rw());
+	w().trace_on = true;
+	unsafe { crate::lockable::RawLock::raw_write(&o) };
+	let wt = (w().trace[0], w().trace[1], w().ops);
+	unsafe { crate::lockable::RawLock::raw_unlock_write(&o) };
+	super::vlock::world_reset();
+	w().trace_on = true;
+	unsafe { crate::lockable::RawLock::raw_read(&o) };
+	let rt = (w().trace[0], w().trace[1], w().ops);
+	unsafe { crate::lockable::RawLock::raw_unlock_read(&o) };
+	assert!(wt == ((1, OP_LOCK_X), (0, OP_LOCK_X), 2), "C08_owned_unit_acquired_contiguously_in_declared_order");
+	assert!(rt == ((1, OP_LOCK_S), (0, OP_LOCK_S), 2), "C08_owned_unit_read_takes_members_in_the_same_declared_order_as_write");
+	kani::cover!(true, "end");
+}}
+
+vharness! {
 #[kani::unwind(7)]
 fn c08_q_nested_retry_member_contributes_leaves() {
 	// a retrying collection nested in a sorting collection is not acquired in its own listing order
